@@ -365,6 +365,24 @@ func c10Ops(c *ev.Ctx) []c10Op {
 			decOp(fmt.Sprintf("cut-vp8/%d", k), riffWrap(chunk("VP8X", ch["VP8X"]), chunk("ALPH", ch["ALPH"]), chunk("VP8 ", ch["VP8 "][:len(ch["VP8 "])*(1+k)/3])))
 		}
 	}
+	for k := 0; k < 2; k++ {
+		if d := badFramesAnim(r); d != nil {
+			add(fmt.Sprintf("anim-badframes/%d", k), func() string {
+				an, err := animation.DecodeBytes(d)
+				if err != nil {
+					return errDigest(err)
+				}
+				e1 := an.DecodeFramesParallel()
+				got := ""
+				for i := range an.Frames {
+					if an.Frames[i].HasImage() {
+						got += fmt.Sprint(i, ",")
+					}
+				}
+				return errDigest(e1) + " decoded=" + got
+			})
+		}
+	}
 	anims := animCorpus(r, 4, 40)
 	for _, f := range anims {
 		d := f.Data
